@@ -194,6 +194,8 @@ class SLock:
             self.acquisitions += 1
             return True
         tid = s.current
+        if not blocking and self.owner is not None:
+            return False          # a try-lock does not wait
         if self.owner == tid:
             # re-acquiring a non-reentrant lock one already holds: a self-deadlock
             s.block_on(tid, self)
